@@ -1,4 +1,4 @@
-import ArcSwapModel.Inv.ListInv
+import ArcSwapModel.Inv.Check
 import ArcSwapModel.Tie.ListNodeGet
 import ArcSwapModel.Tie.ListCheckCooldown
 import ArcSwapModel.Tie.ListStartCooldown
@@ -97,6 +97,20 @@ recorded as the known finding `writer-lockstep-node-get`.  What is enforced on e
 the conditional statement: a `Node::get` that never observed a writer inside a node in cooldown
 allocates only when every node was in use.
 -/
+
+/-! ## The check for the end of a cooldown holds its node (`Inv/Check.lean`; repair of D12) -/
+
+/-- **a node under check is used by nobody else**: in every reachable state, a node that some
+    `Node::get` has taken out of cooldown to look at its `active_writers` is in the checking state,
+    is held by that one thread, is owned by nobody and can be neither claimed nor sent to cooldown
+    — so between the look at the writers and the release it cannot go through another round of
+    ownership -/
+theorem C11_check_holds_its_node {st : State} (h : Reachable st) (t n : Nat) (hc : (st.th t).op.chk = some n) :
+    (st.sh.nodes n).inUse = nodeChecking ∧ (∀ t', t' ≠ t → (st.th t').op.chk ≠ some n) ∧
+      (∀ t', ownsT (st.th t') ≠ some n) := by
+  have hi := CheckInv.reachable h
+  exact ⟨hi.held t n hc, fun t' ht' => hi.excl t t' n (fun e => ht' e.symm) hc,
+    (checked_node_is_nobodys hi (OwnInv.reachable h) t n hc).1⟩
 
 /-! ## The list itself (`Inv/ListInv.lean`) -/
 
